@@ -742,6 +742,11 @@ func finish(cfg Config, m *Merged, wall time.Duration) int {
 		w := m.Viols[s]
 		if fd := findings.Match(cfg.Property, s); fd != nil {
 			knownSeen[fd.Signature] += m.ViolN[s]
+			// keep a replayable witness of the listed finding as well
+			os.MkdirAll(filepath.Join(witDir, "known"), 0o755)
+			h := sha1.Sum([]byte(s))
+			b, _ := json.MarshalIndent(w, "", " ")
+			os.WriteFile(filepath.Join(witDir, "known", fmt.Sprintf("%x.json", h[:6])), b, 0o644)
 			continue
 		}
 		unlisted++
